@@ -7,6 +7,11 @@ helpers over a generic ordered field with floor, and the theorem `refines` prove
 off/D, eps = E/D is DS.Orbit.expand / D (exact real/rational arithmetic); (2) correspondence model vs
 `expandPosition`/`GeneratorSite` on all settings x strata x variants (floating point).
 Oracle: exact orbit with `fractions` computed from the runtime tables, independent of the model.
+Two further strata are judged by the oracle alone (`site_plan` / `judge_site`, no model side): "eau" - ONE
+ExpandAsymmetricUnit call with several core sites (a stratum representative listed twice and its neighbours at 0.3, 3, 30 eps
+in seeded order, eps 1e-7 / default / 1e-5 / 1e-3, in the cell and ten cells away), every listed site judged on its own;
+"near" - sites 1e-7 / 1e-9 off a special position expanded with eps = 0 (exact mode: all distinct exact images distinct) or
+eps 1e-10 / 1e-8 through expandPosition, GeneratorSite and ExpandAsymmetricUnit.  Their replays re-execute the whole call.
 """
 import json
 import math
@@ -275,6 +280,358 @@ _PURITY = [0]
 _FORCE = [False]     # the replay runs every optional part of the oracle
 
 
+# ---------------------------------------------------------------------------------------------------------------------
+# Strata "eau" (ONE ExpandAsymmetricUnit call with several core sites, consecutive near-neighbours, user-chosen eps, sites
+# inside the cell and ten cells away) and "near" (eps = 0 / tiny eps on sites 1e-7, 1e-9 away from special positions,
+# through expandPosition, GeneratorSite and ExpandAsymmetricUnit).  Every site is judged on its own by `judge_site`
+# against `site_plan`: the exact images of the site (fractions), grouped by the documented meaning of `eps`
+# ("cutoff for equal positions", box distance, periodic).  The generator keeps only sites for which that meaning
+# decides the answer (closeness of the images is an equivalence relation, no distance within 0.1 % of the cutoff).
+
+MARGIN = 1.0e-3          # relative distance from the cutoff below which exact and floating comparison may differ
+MINSEP = 4.0e-11         # distinct exact images nearer than this are not told apart reliably in double precision (eps = 0)
+DELTAS = (Fraction(0), Fraction(3, 10), Fraction(3), Fraction(30))   # neighbour distances in units of eps
+EAU_COMBOS = (((Fraction(1, 10 ** 7), "1e-7"), "in"), ((EPS, None), "far"), ((Fraction(1, 1000), "1e-3"), "mixed"),
+              ((Fraction(1, 10 ** 7), "1e-7"), "far"), ((EPS, "1e-5"), "in"), ((Fraction(1, 1000), "1e-3"), "far"))
+NEAR_COMBOS = ((Fraction(0), Fraction(1, 10 ** 7)), (Fraction(0), Fraction(1, 10 ** 9)),
+               (Fraction(1, 10 ** 10), Fraction(1, 10 ** 7)), (Fraction(1, 10 ** 8), Fraction(1, 10 ** 7)))
+
+
+def unreduced(op, x, off):
+    R, t = op
+    y = [x[i] + off[i] for i in range(3)]
+    return [sum(R[i][j] * y[j] for j in range(3)) + t[i] - off[i] for i in range(3)]
+
+
+def _boxmatrix(P):
+    D = numpy.abs(P[:, None, :] - P[None, :, :])
+    D = numpy.minimum(D, 1.0 - D)
+    return D.max(axis=2)
+
+
+def site_plan(ops, x, off, eps, snapped=False):
+    """What the property statement says about the site x (Fractions) for the tolerance eps (Fraction, 0 = exact mode).
+    None when the documented meaning of eps does not decide it or double precision cannot be trusted to see it:
+    some pair of distinct images is within 0.1 % of the cutoff, closeness is not an equivalence relation with classes
+    of one size, with eps = 0 two distinct images are nearer than 4e-11, the site adjusted to the middle of its own
+    class has a coordinate that GeneratorSite would set to zero, or the adjusted site is itself such a case."""
+    n = len(ops)
+    e = float(eps)
+    pos, cls, index = [], [], {}
+    for i, op in enumerate(ops):
+        p = apply(op, x, off)
+        if p not in index:
+            index[p] = len(pos)
+            pos.append(p)
+            cls.append([])
+        cls[index[p]].append(i)
+    m = len(pos)
+    P = numpy.array([[float(c) for c in p] for p in pos])
+    minsep = 1.0
+    comp_of = list(range(m))
+    if m > 1:
+        B = _boxmatrix(P)
+        b = B[numpy.triu_indices(m, 1)]
+        minsep = float(b.min())
+        if e > 0.0:
+            if numpy.any(numpy.abs(b - e) <= MARGIN * e):
+                return None
+            A = B <= e
+            comp_of = [-1] * m
+            k = 0
+            for i in range(m):
+                if comp_of[i] >= 0:
+                    continue
+                mem = numpy.flatnonzero(A[i])
+                if not (A[mem] == A[i]).all():
+                    return None            # near a and near b, but a and b are not near: no classes
+                for j in mem:
+                    comp_of[int(j)] = k
+                k += 1
+        elif minsep < MINSEP:
+            return None
+    k = max(comp_of) + 1
+    comp = [[] for _ in range(k)]
+    for i, c in enumerate(comp_of):
+        comp[c].append(i)
+    compops = [sorted(o for i in members for o in cls[i]) for members in comp]
+    if len({len(c) for c in compops}) != 1:
+        return None
+    sep = all(len(members) == 1 for members in comp)
+    xm = tuple(v % 1 for v in x)
+    home = comp_of[index[xm]] if xm in index else None
+    if e > 0.0 and home is not None:
+        # the middle of the site's own class (where a site within the tolerance of a special position is moved to)
+        acc = [Fraction(0)] * 3
+        for o in compops[home]:
+            y = unreduced(ops[o], x, off)
+            for c in range(3):
+                d = y[c] - x[c]
+                acc[c] += d - round(d)
+        mid = [x[c] + acc[c] / len(compops[home]) for c in range(3)]
+        if any(0 < abs(v) < Fraction(5, 2) * eps for v in mid):
+            return None
+        if not sep:
+            if snapped:
+                return None
+            sub = site_plan(ops, mid, off, eps, snapped=True)
+            if sub is None or not sub["sep"] or len(sub["comp"]) != k:
+                return None
+    elif e > 0.0 and not sep:
+        return None
+    return {"n": n, "P": P, "comp": comp, "comp_of": comp_of, "compops": compops, "cls": cls, "home": home, "sep": sep,
+            "minsep": minsep, "of_op": {o: comp_of[i] for i in range(m) for o in cls[i]}}
+
+
+def judge_site(plan, x, eps, pos, got, mult, what):
+    """The expansion (pos, got = operation indices per position or None, mult) of the site x against its plan.
+    eps > 0: one returned position per class of images, equal within the tolerance to every image of its class (to
+    1e-9 when no two distinct images are within the tolerance), the class of the site itself first, the operations of
+    a class attributed to its position, multiplicity x (operations of the first class) = group order.
+    eps = 0: every two distinct exact images are returned as distinct positions (images that are equal exactly may be told
+    apart by round-off, which is not judged)."""
+    e = float(eps)
+    n = plan["n"]
+    k = len(plan["comp"])
+    if mult != len(pos) or (got is not None and len(got) != len(pos)):
+        return "%s: inconsistent lengths: multiplicity %r, %d positions" % (what, mult, len(pos))
+    for p in pos:
+        if not all(0.0 <= c < 1.0 for c in p):
+            return "%s: position %r not reduced into the unit cell" % (what, list(map(float, p)))
+    exactmode = e == 0.0
+    if len(pos) != k and not (exactmode and k < len(pos) <= n):
+        return "%s: %d positions returned, the site %r has %d distinct images (eps = %g)" % (what, len(pos), [float(v) for v in x], k, e)
+    tight = min(1.0e-9, plan["minsep"] / 4.0)
+    tol = tight if (plan["sep"] or exactmode) else 1.001 * e + 1.0e-12
+    P = plan["P"]
+    where = []
+    for j, p in enumerate(pos):
+        D = numpy.abs(P - numpy.asarray(p, dtype=float)[None, :])
+        D = numpy.minimum(D, 1.0 - D).max(axis=1)
+        c = plan["comp_of"][int(numpy.argmin(D))]
+        far = max(float(D[i]) for i in plan["comp"][c])
+        if far > tol:
+            return "%s: position %d %r is not an image of the site %r within the tolerance (nearest image class is %.3g away, eps = %g)" % (
+                what, j, list(map(float, p)), [float(v) for v in x], far, e)
+        where.append(c)
+    if sorted(set(where)) != list(range(k)) or (not exactmode and len(set(where)) != len(where)):
+        missing = [c for c in range(k) if c not in where]
+        return "%s: the returned positions do not cover the distinct images once each (%d missing, e.g. image %r; eps = %g)" % (
+            what, len(missing), P[plan["comp"][missing[0]][0]].tolist() if missing else None, e)
+    if pdist(pos[0], [v % 1 for v in x]) > (tol if not plan["sep"] else tight):
+        return "%s: the input site %r is not first: first position %r" % (what, [float(v) for v in x], list(map(float, pos[0])))
+    if got is not None:
+        if sorted(i for c in got for i in c) != list(range(n)):
+            return "%s: operations are not attributed exactly once" % what
+        for j, c in enumerate(got):
+            for i in c:
+                if plan["of_op"][i] != where[j]:
+                    return "%s: operation %d is attributed to position %d %r, which is not its image (eps = %g)" % (
+                        what, i, j, list(map(float, pos[j])), e)
+        if len(pos) == k and len(pos) * len(got[0]) != n:
+            return "%s: multiplicity %d x stabiliser %d != group order %d" % (what, len(pos), len(got[0]), n)
+    if len(pos) == k and plan["home"] is not None and len(pos) * len(plan["compops"][plan["home"]]) != n:
+        return "%s: multiplicity %d x %d operations keeping the site != group order %d" % (what, len(pos), len(plan["compops"][plan["home"]]), n)
+    return None
+
+
+def _direction(rng):
+    """displacement direction with largest component exactly +-1, the others 0.15-0.95 with a prime denominator"""
+    d = [Fraction(rng.choice([-1, 1]) * rng.randrange(152, 958), 1009) for _ in range(3)]
+    d[rng.randrange(3)] = Fraction(rng.choice([-1, 1]))
+    return d
+
+
+def gen_eau(rng, sg, st, combo, off, ngroups):
+    """One ExpandAsymmetricUnit call: per group a base site (a stratum representative, placed in the cell or ten cells
+    away) listed twice, and its neighbours at 0.3, 3 and 30 eps along one direction, in seeded order; groups one after
+    another.  Returns the replay record (sites as exact fractions) or None."""
+    (eps, epsname), place = combo
+    ops = exact_ops(sg)
+    special = [i for i in range(len(st)) if st[i]["nstab"] > 1]
+    sites, tags = [], []
+    for g in range(ngroups):
+        if g == 0 and special:
+            i = max(special, key=lambda i_: st[i_]["nstab"]) if rng.random() < 0.5 else rng.choice(special)
+        else:
+            i = rng.randrange(len(st))
+        s = [strata.frac(p) for p in st[i]["xyz"]]
+        far = place == "far" or (place == "mixed" and rng.random() < 0.5)
+        shift = [rng.choice([-10, 10]) if far else 0 for _ in range(3)]
+        base = [s[c] - off[c] + shift[c] for c in range(3)]
+        best = []
+        for _ in range(12):
+            d = _direction(rng)
+            members = []
+            for dl in (DELTAS[0],) + DELTAS:
+                x = [base[c] + dl * eps * d[c] for c in range(3)]
+                if site_plan(ops, x, off, eps) is not None:
+                    members.append((x, "%s+%s eps" % (i, dl)))
+            if len(members) > len(best):
+                best = members
+            if len(best) == len(DELTAS) + 1:
+                break
+        rng.shuffle(best)
+        sites += [m[0] for m in best]
+        tags += [m[1] for m in best]
+    if not sites:
+        return None
+    return {"kind": "eau", "setting": sg.number, "eps": epsname, "eps_exact": str(eps), "place": place,
+            "sgoffset": [str(v) for v in off], "sites": [[str(v) for v in x] for x in sites], "tags": tags}
+
+
+def gen_near(rng, sg, st, i, combo, off, epsint):
+    """A site delta (1e-7, 1e-9) away from the special position st[i] in a generic direction, to be expanded with
+    eps = 0 or a tiny eps by the three entry points."""
+    eps, delta = combo
+    ops = exact_ops(sg)
+    s = [strata.frac(p) for p in st[i]["xyz"]]
+    shift = [rng.choice([0, 0, 0, -1, 1]) for _ in range(3)]
+    for _ in range(12):
+        d = _direction(rng)
+        x = [s[c] - off[c] + shift[c] + delta * d[c] for c in range(3)]
+        if site_plan(ops, x, off, eps) is not None:
+            return {"kind": "near", "setting": sg.number, "eps_exact": str(eps), "eps_int": bool(epsint and eps == 0),
+                    "delta": str(delta), "sgoffset": [str(v) for v in off], "xyz": [str(v) for v in x],
+                    "special_site": [str(v) for v in s]}
+    return None
+
+
+def _epsarg(r):
+    eps = Fraction(r["eps_exact"])
+    if r["kind"] == "eau":
+        return eps, (None if r["eps"] is None else float(eps))
+    return eps, (0 if r.get("eps_int") else float(eps))
+
+
+def _opidx(sg, cls):
+    idx_of = {id(o): i for i, o in enumerate(sg.symop_list)}
+    return [sorted(idx_of.get(id(o), -1) for o in c) for c in cls]
+
+
+def run_record(sg, r):
+    """Re-execute the whole call of an "eau" / "near" record on the code under examination and judge every site.
+    Returns (problem or None, number of sites judged)."""
+    from diffpy.structure.symmetryutilities import ExpandAsymmetricUnit, GeneratorSite, expandPosition
+
+    ops = exact_ops(sg)
+    off = [Fraction(v) for v in r["sgoffset"]]
+    of = [float(v) for v in off]
+    eps, epsarg = _epsarg(r)
+    if r["kind"] == "eau":
+        sites = [[Fraction(v) for v in x] for x in r["sites"]]
+        core = [numpy.array([float(v) for v in x]) for x in sites]
+        eau = ExpandAsymmetricUnit(sg, core, sgoffset=of, eps=epsarg)
+        if len(eau.expandedpos) != len(core) or len(eau.multiplicity) != len(core):
+            return "ExpandAsymmetricUnit of %d sites returned %d expansions" % (len(core), len(eau.expandedpos)), 0
+        nj = 0
+        for i, x in enumerate(sites):
+            plan = site_plan(ops, x, off, eps)
+            if plan is None:
+                continue
+            nj += 1
+            prob = judge_site(plan, x, eps, eau.expandedpos[i], None, eau.multiplicity[i],
+                              "ExpandAsymmetricUnit(%d sites, eps=%s) listed site %d" % (len(core), r["eps"] or "default", i))
+            if prob:
+                return prob, nj
+        return None, nj
+    x = [Fraction(v) for v in r["xyz"]]
+    plan = site_plan(ops, x, off, eps)
+    if plan is None:
+        return None, 0
+    xf = numpy.array([float(v) for v in x])
+    pos, cls, mult = expandPosition(sg, xf.copy(), of, epsarg)
+    prob = judge_site(plan, x, eps, pos, _opidx(sg, cls), mult, "expandPosition(eps=%r)" % (epsarg,))
+    if prob:
+        return prob, 1
+    gs = GeneratorSite(sg, xf.copy(), sgoffset=of, eps=epsarg)
+    prob = judge_site(plan, x, eps, gs.eqxyz, _opidx(sg, gs.symops), gs.multiplicity, "GeneratorSite(eps=%r)" % (epsarg,))
+    if prob:
+        return prob, 1
+    moved = max(abs(float(a) - float(b)) for a, b in zip(gs.xyz, x))
+    if moved > (min(1.0e-9, plan["minsep"] / 4.0) if plan["sep"] or eps == 0 else 1.001 * float(eps)):
+        return "GeneratorSite(eps=%r) moved the site %r to %r, farther than the tolerance" % (epsarg, xf.tolist(), gs.xyz.tolist()), 1
+    if len(gs.eqxyz) == len(plan["comp"]) and len(gs.invariants) * gs.multiplicity != plan["n"]:
+        return "GeneratorSite(eps=%r): %d invariants x multiplicity %d != group order %d" % (epsarg, len(gs.invariants), gs.multiplicity, plan["n"]), 1
+    eau = ExpandAsymmetricUnit(sg, [xf.copy()], sgoffset=of, eps=epsarg)
+    prob = judge_site(plan, x, eps, eau.expandedpos[0], None, eau.multiplicity[0], "ExpandAsymmetricUnit(1 site, eps=%r)" % (epsarg,))
+    return prob, 1
+
+
+def guarded_record(sg, r):
+    before = [(o.R.tobytes(), o.t.tobytes()) for o in sg.symop_list]
+    try:
+        res = run_record(sg, r)
+    except Exception as e:  # noqa: BLE001
+        res = ("raised %r" % (e,), 0)
+    after = [(o.R.tobytes(), o.t.tobytes()) for o in sg.symop_list]
+    if after != before:
+        for o, (rb, tb) in zip(sg.symop_list, before):
+            o.R[...] = numpy.frombuffer(rb, dtype=o.R.dtype).reshape(o.R.shape)
+            o.t[...] = numpy.frombuffer(tb, dtype=o.t.dtype).reshape(o.t.shape)
+        return "the expansion changed the tabulated operations of the setting in place", res[1]
+    return res
+
+
+def _record_worker(job):
+    """job = (setting number, "eau"/"near"/"record", ...): build the case from its own seeded generator, run it."""
+    import random
+
+    num, kind = job[0], job[1]
+    sg = _W["sgs"][num]
+    if kind == "record":
+        r = job[2]
+    else:
+        st = _W["strata"][num]
+        rng = random.Random(job[2])
+        if kind == "eau":
+            r = gen_eau(rng, sg, st, job[3], job[4], job[5])
+        else:
+            r = gen_near(rng, sg, st, job[3], job[4], job[5], job[6])
+    if r is None:
+        return None, None, 0
+    prob, nj = guarded_record(sg, r)
+    return r, prob, nj
+
+
+def record_jobs(ck, sglist, allstrata, widen):
+    """Seeded list of jobs of the two strata (generation and redraws happen in the workers, each from its own seed)."""
+    offs = [(Fraction(0),) * 3, (Fraction(1, 4), Fraction(1, 4), Fraction(1, 4)), (Fraction(1, 10), Fraction(1, 5), Fraction(3, 10)),
+            (Fraction(0), Fraction(1, 4), Fraction(0))]
+    zero = offs[0]
+    jobs = []
+    thorough = ck.tier == "thorough"
+    for k, sg in enumerate(sglist):
+        st = allstrata.get(sg.number)
+        if not st:
+            continue
+        half = (k + ck.seed) % 2
+        combos = EAU_COMBOS if thorough else EAU_COMBOS[3 * half: 3 * half + 3]
+        for c, combo in enumerate(combos):
+            for rep in range(3 if thorough else 1):
+                shifted = (k + c) % 5 == 0 or (rep > 0 and (thorough or widen))
+                off = offs[1 + (k + c + rep) % (len(offs) - 1)] if shifted else zero
+                jobs.append((sg.number, "eau", ck.rng.getrandbits(48), combo, off, 2 if (thorough or c == 0) else 1))
+        special = [i for i in range(len(st)) if st[i]["nstab"] > 1]
+        if not special:
+            continue
+        best = max(special, key=lambda i_: st[i_]["nstab"])
+        if thorough:
+            chosen = special
+        else:
+            rest = [i for i in special if i != best]
+            ck.rng.shuffle(rest)
+            chosen = [best] + rest[:(3 if widen else 1)]
+        for a, i in enumerate(chosen):
+            ncombo = len(NEAR_COMBOS) if (thorough or widen) else 2
+            for b in range(ncombo):
+                # quick: eps = 0 with one of the two offsets, and one tiny eps
+                combo = NEAR_COMBOS[b] if (thorough or widen) else (NEAR_COMBOS[(k + a + ck.seed) % 2] if b == 0 else NEAR_COMBOS[2 + (k + a) % 2])
+                off = offs[1 + (k + a + b) % 3] if (k + a + b) % 4 == 0 else zero
+                jobs.append((sg.number, "near", ck.rng.getrandbits(48), i, combo, off, (k + a) % 3 == 0))
+    return jobs
+
+
 def source_tie_sym(ck):
     """`ck.source_tie` for the group "sym"; repeated when another check running at the same time (other tree, same
     lean/DS/Gen) has overwritten the generated file between translation and build"""
@@ -323,6 +680,8 @@ def guarded_impl(sg, kind, x0, x, off, expandPosition, GeneratorSite):
 
 
 def _impl_worker(job):
+    if job[1] in ("eau", "near", "record"):
+        return _record_worker(job)
     num, kind, x0, x, off = job
     return guarded_impl(_W["sgs"][num], kind, x0, x, off, *_W["fns"])
 
@@ -353,13 +712,17 @@ def run(ck):
     except OSError:
         corpus = []
     bynum = {g.number: g for g in sgs.SpaceGroupList}
+    rjobs = []
     for r in corpus:
         g = bynum.get(r["setting"])
-        if g is not None:
+        if g is not None and r.get("kind") in ("eau", "near"):
+            rjobs.append((g.number, "record", r))
+        elif g is not None:
             cases.append((g, r["variant"], [Fraction(v) for v in r["special_site"]], [Fraction(v) for v in r["xyz"]],
                           tuple(Fraction(v) for v in r["sgoffset"]), {"nstab": 1, "corpus": True}))
-    ck.coverage["corpus_cases"] = len(cases)
+    ck.coverage["corpus_cases"] = len(cases) + len(rjobs)
     cases += list(gen_cases(ck, sgs.SpaceGroupList, allstrata, widen=not tie_ok))
+    rjobs += record_jobs(ck, sgs.SpaceGroupList, allstrata, widen=not tie_ok)
     lines, Ds, mcases = [], [], []
     for c in cases:
         sg, kind, x0, x, off, st = c
@@ -383,7 +746,39 @@ def run(ck):
     # the implementation-side oracle of every case, in worker processes (one family = the settings of one table number)
     _W["sgs"] = bynum
     _W["fns"] = (expandPosition, GeneratorSite)
-    impl = common.parallel_families(_impl_worker, [(c[0].number, c[1], c[2], c[3], c[4]) for c in cases], lambda j: j[0] % 1000, ck.notes)
+    _W["strata"] = allstrata
+    impl = common.parallel_families(_impl_worker, rjobs + [(c[0].number, c[1], c[2], c[3], c[4]) for c in cases], lambda j: j[0] % 1000, ck.notes)
+    rres, impl = impl[:len(rjobs)], impl[len(rjobs):]
+    # several core sites per ExpandAsymmetricUnit call / eps = 0 and tiny eps next to special positions
+    nrec = {"eau": 0, "near": 0}
+    nsites = {"eau": 0, "near": 0}
+    rsamples = []
+    for job, (r, prob, nj) in zip(rjobs, rres):
+        if r is None:
+            continue
+        nrec[r["kind"]] += 1
+        nsites[r["kind"]] += nj
+        ck.coverage["evaluations"] += 1
+        distinct.add((r["setting"], r["kind"], json.dumps(r.get("sites") or r.get("xyz")), r["eps_exact"]))
+        if len(rsamples) < 2 and r["kind"] not in [q["kind"] for q in rsamples]:
+            rsamples.append(r)
+        if prob:
+            nfail += 1
+            sgr = bynum[r["setting"]]
+            if r["kind"] == "eau":
+                key = "expand-unit:%s:eps=%s:%s" % (r["setting"], r["eps"] or "default", r["place"])
+                what = "ExpandAsymmetricUnit(%s #%s, %d core sites %s, sgoffset=%s, eps=%s): %s" % (
+                    sgr.short_name, r["setting"], len(r["sites"]), [[float(Fraction(v)) for v in x] for x in r["sites"]],
+                    [float(Fraction(v)) for v in r["sgoffset"]], r["eps"] or "default", prob)
+            else:
+                key = "expand-eps:%s:eps=%s" % (r["setting"], r["eps_exact"])
+                what = "site %s of %s #%s (%s away from the special position %s), sgoffset=%s, eps=%s: %s" % (
+                    [float(Fraction(v)) for v in r["xyz"]], sgr.short_name, r["setting"], r["delta"],
+                    [float(Fraction(v)) for v in r["special_site"]], [float(Fraction(v)) for v in r["sgoffset"]], r["eps_exact"], prob)
+            ck.fail(key, what, dict(r, detail=prob))
+    ck.coverage["unit_calls"] = nrec["eau"]
+    ck.coverage["unit_sites_judged"] = nsites["eau"]
+    ck.coverage["exact_mode_sites"] = nrec["near"]
     for c, (prob, summ) in zip(cases, impl):
         sg, kind, x0, x, off, st = c
         ck.coverage["evaluations"] += 1
@@ -430,16 +825,24 @@ def run(ck):
     ck.coverage["rule"] = ("all %d settings x Wyckoff strata representatives (exact finder, <=6 per setting in quick) x variants %s; "
                            "distinct_nontrivial = distinct (setting, site, offset) inputs that are special positions or perturbed/shifted/offset variants"
                            % (len(sgs.SpaceGroupList), sorted(kinds.items())))
+    ck.coverage["rule"] += ("; plus %d ExpandAsymmetricUnit calls with 5-10 core sites each (a stratum representative listed twice and its neighbours at "
+                            "0.3, 3, 30 eps in seeded order, eps 1e-7 / default / 1e-5 / 1e-3, in the cell and ten cells away; %d sites judged one by one against "
+                            "the exact images grouped by eps) and %d sites 1e-7 / 1e-9 off a special position expanded with eps = 0 or 1e-10 / 1e-8 by "
+                            "expandPosition, GeneratorSite and ExpandAsymmetricUnit" % (nrec["eau"], nsites["eau"], nrec["near"]))
     ck.coverage["variants"] = kinds
     ck.coverage["strata_total"] = sum(len(v) for v in allstrata.values())
     ck.coverage["samples"] = [
         {"input": lines[i], "model": (outs[i][:200] if outs else None)} for i in (0, len(lines) // 2, len(lines) - 1) if lines
-    ]
+    ] + rsamples
     ck.assumptions += [
         "DS.Props.SrcSym.refines ties DS.Orbit to the current source in exact arithmetic over any ordered field with floor (Q, R): numpy/Python primitives as read in lean/DS/Model/SymReal.lean (element-wise ops, floor, masked assignment = where, argmin = first minimum, int = truncation, dict of list objects); the eps == 0 / eps < 1/sys.maxsize branch of _Position2Tuple and the default eps are text facts; parameter types are fixed from the call sites",
         "float rounding inside SymOp.__call__ and the bucket arithmetic is observed only through the differential (tolerance 1e-9; 5e-7 for sites perturbed by 1e-7)",
         "orbit_exact covers sites whose images are pairwise equal or farther apart than eps (Sep); gap_result / perturbed_counts cover sites whose images are pairwise within eps/4 or farther than 2 eps (Gap), in particular perturbations of an exactly special site by less than eps/8; configurations in between are covered by correspondence + oracle only",
     ]
+    ck.assumptions.append(
+        "strata eau / near: only sites for which the documented meaning of eps decides the answer are generated (no pair of images within 0.1 % of the "
+        "cutoff, closeness an equivalence relation, no coordinate of the adjusted site in (0, 2.5 eps) where GeneratorSite sets it to zero; with eps = 0 "
+        "distinct images at least 4e-11 apart, and images that coincide exactly may be returned once or - told apart by round-off - twice)")
     ck.coverage["trusted_base"] += ["translate/tables.py", "harness/strata.py (generator of sites; not an oracle)",
                                     "translate/src_sym.py + lean/DS/Model/SymReal.lean (transliteration of expandPosition and the reading of the numpy primitives it is written in)"]
     ck.tie_verdict(tie_ok, tie_info, "symmetryutilities.py expandPosition/_Position2Tuple/positionDifference/nearestSiteIndex/equalPositions, spacegroupmod.py SymOp.__call__")
@@ -456,6 +859,11 @@ def replay(path):
     from diffpy.structure.symmetryutilities import GeneratorSite, expandPosition
 
     sg = [g for g in sgs.SpaceGroupList if g.number == r["setting"]][0]
+    if r.get("kind") in ("eau", "near"):
+        # the whole call again: every core site, the same eps and origin shift; every site judged
+        prob, nj = guarded_record(sg, r)
+        print("problem:", prob, "(%d sites judged)" % nj)
+        return 1 if prob else 0
     x = [Fraction(v) for v in r["xyz"]]
     x0 = [Fraction(v) for v in r["special_site"]]
     off = [Fraction(v) for v in r["sgoffset"]]
